@@ -198,9 +198,10 @@ impl Kind for RawVector {
                     if view.bit(i) != self.bit(i) {
                         return Ok(Err(format!("RawVectorMapper bit {} differs", i)));
                     }
-                    let w = (i % 64 + 1).min(n - i);
-                    if unsafe { view.int(i, w) } != unsafe { self.int(i, w) } {
-                        return Ok(Err(format!("RawVectorMapper int({}, {}) differs", i, w)));
+                    for w in [(i % 64 + 1).min(n - i), 64usize.min(n - i), 33usize.min(n - i)] {
+                        if unsafe { view.int(i, w) } != unsafe { self.int(i, w) } {
+                            return Ok(Err(format!("RawVectorMapper int({}, {}) differs", i, w)));
+                        }
                     }
                 }
             }
